@@ -34,6 +34,7 @@ def run(tier, seed):
     import c09
     shim_ok = c09.build_shim()[0]
     injected_runs = injected_hit = 0
+    link_diffs = []
     with vlib.Scratch() as sc:
         for i in range(n):
             sspec, dspec = ew.gen_world(r, with_big=(i % 3 == 0))
@@ -147,20 +148,42 @@ def run(tier, seed):
             if len(samples) < 2:
                 samples.append({"flags": fl, "events": raw["events"][:8], "summary": sm})
             shutil.rmtree(base, ignore_errors=True)
-        # symlink entries that are not materialised (known finding C19-KF1)
-        for mode in ("skip", "follow"):
-            base = os.path.join(sc.dir, "lnk_" + mode)
-            os.makedirs(base + "/src"); os.makedirs(base + "/dst")
-            open(base + "/src/t.txt", "w").write("x")
-            os.symlink("nowhere" if mode == "follow" else "t.txt", base + "/src/l")
-            rr = world.run_sy([base + "/src", base + "/dst", "--links", mode, "--json", "-j1"], sc)
-            created = [json.loads(l)["path"] for l in rr["out"].split("\n") if l.startswith("{") and json.loads(l).get("type") == "create"]
-            if any(p.endswith("/l") for p in created) and not os.path.lexists(base + "/dst/l"):
-                f = {"world": "links-" + mode, "why": "a create event is reported for a symlink entry although nothing appears in the destination", "klass": "skip-link-created"}
-                if f["klass"] in known:
-                    hits.setdefault(known[f["klass"]]["id"], []).append(f)
-                else:
-                    viol.append(f)
+        # symlink entries (outside Engine.v): the event reported for the entry vs Links.link_event and vs what happened
+        le_cases, le_obs = [], []
+        lw = 0
+        for mode in ("skip", "follow", "preserve"):
+            for tkind, cw in (("file", "f7"), ("dangling", "m"), ("dir", "d")):
+                for prior, dinit in (("absent", "a"), ("samelink", "l1"), ("otherlink", "l2"), ("file", "f3")):
+                    base = os.path.join(sc.dir, "lnk%d" % lw); lw += 1
+                    os.makedirs(base + "/src/sub"); os.makedirs(base + "/dst")
+                    open(base + "/src/t.txt", "w").write("seven77")
+                    target = {"file": "t.txt", "dangling": "nowhere", "dir": "sub"}[tkind]
+                    os.symlink(target, base + "/src/l")
+                    if prior == "samelink":
+                        os.symlink(target, base + "/dst/l")
+                    elif prior == "otherlink":
+                        os.symlink("elsewhere", base + "/dst/l")
+                    elif prior == "file":
+                        open(base + "/dst/l", "w").write("usr")
+                    before_l = os.path.lexists(base + "/dst/l")
+                    rr = world.run_sy([base + "/src", base + "/dst", "--links", mode, "--json", "-j1"], sc)
+                    kind = "none"
+                    for l in rr["out"].split("\n"):
+                        if l.startswith("{"):
+                            ev = json.loads(l)
+                            if ev.get("path", "").endswith("/dst/l") and ev.get("type") in ("create", "update", "skip", "error"):
+                                kind = ev["type"]
+                    le_cases.append("LE %s %s 1:%s" % (mode, dinit, cw))
+                    le_obs.append(kind)
+                    after_l = os.path.lexists(base + "/dst/l")
+                    if kind == "create" and (before_l or not after_l):
+                        viol.append({"world": "links-%s-%s-%s" % (mode, tkind, prior), "why": "a create event is reported for a symlink entry although %s" % ("the path existed before" if before_l else "nothing appears in the destination")})
+                    if kind == "skip" and before_l != after_l:
+                        viol.append({"world": "links-%s-%s-%s" % (mode, tkind, prior), "why": "a skip event is reported for a symlink entry although the destination entry %s" % ("disappeared" if before_l else "appeared")})
+                    shutil.rmtree(base, ignore_errors=True)
+        for c_, o_, m_ in zip(le_cases, le_obs, vlib.run_model(le_cases)):
+            if o_ != m_:
+                link_diffs.append({"case": c_, "impl": o_, "model": m_})
         # a name that is not valid UTF-8 cannot be a JSON string: its events must still be there (lossily written), one per change
         bb = os.path.join(sc.dir, "bytes").encode()
         os.makedirs(bb + b"/src"); os.makedirs(bb + b"/dst")
@@ -184,14 +207,16 @@ def run(tier, seed):
     for case, o, m in zip(cases, obs_l, model):
         if o != m and ew.norm_events(o) != ew.norm_events(m):          # with several workers the events come in completion order
             diffs.append({"case": case, "impl": o, "model": m})
-    res.cov["evaluations"] = len(cases) * 2
+    diffs += link_diffs
+    res.cov["link_event_cases"] = 36
+    res.cov["evaluations"] = len(cases) * 2 + 36
     res.cov["distinct_nontrivial"] = len(nontriv)
     res.cov["model_impl_disagreements"] = len(diffs)
     res.cov["rule"] = ("C01/C06 worlds, one third with natural faults (type conflicts), all flag sets incl. --delete and --dry-run, run with --json (every stdout line parsed; events, error objects, summary) "
                        "and, on a twin, in human mode (counters parsed); every sixth world with an injected per-file failure (LD_PRELOAD shim: the k-th mutating call fails with EIO/ENOSPC): all lines JSON, error object present, counters = event counts, create/delete events true; events and counters compared with the before/after snapshot diff and with Engine.run; non-trivial = at least one create/update/delete event")
     res.cov["samples"] = samples
     res.cov["injected_failure_runs"] = {"runs": injected_runs, "fault_reached": injected_hit}
-    res.cov["trusted_base"] = TRUSTED_COMMON + ["serde_json emits one object per line", "symlink entries are outside Engine.v (their event accounting is known finding C19-KF1, exercised by C17's worlds only)"]
+    res.cov["trusted_base"] = TRUSTED_COMMON + ["serde_json emits one object per line", "symlink entries are outside Engine.v: their events are modelled by Links.link_event (36 mode x target x prior-entry cases through the binary)"]
     res.cov["known_finding_hits"] = {k: len(v) for k, v in hits.items()}
     for cls, f in known.items():
         h = hits.get(f["id"], [])
